@@ -6,7 +6,7 @@ use crate::mon::{guard, h2, par_shards, Ctx, Local, Outcome, Report};
 use crate::refcal as rc;
 use crate::refinst::{self as ri, RDt, DAY_NS, NS};
 use crate::rng::Rng;
-use chrono::{DateTime, Days, FixedOffset, NaiveDate, NaiveDateTime, TimeDelta, TimeZone, Utc};
+use chrono::{DateTime, Days, FixedOffset, NaiveDate, NaiveDateTime, TimeZone, Utc};
 use serde_json::json;
 
 const B: &[&str] = &[
